@@ -15,7 +15,7 @@ import (
 func init() {
 	Register(&Property{
 		ID: "C06",
-		Explanation: "Decides that every statement that can touch relationships is scoped by the network id of the request: (R06.1) every pop query chain executed on keto_relation_tuples is rooted at queryWithNetwork(ctx), which is Where(\"nid = ?\", NetworkID(ctx)) on its own ctx; (R06.2) every raw statement on keto_relation_tuples has, as a top-level AND-conjunct of its WHERE tree (never under an OR), nid = ? bound to NetworkID(ctx) of the context in scope, and every sub-select on the table correlates nid with the outer row; statements are obtained by symbolically evaluating the builders (Sprintf/Join/Builder/per-case fragments) and parsed, not matched as text; (R06.3) the INSERT's nid column receives the nid parameter and the call site passes NetworkID(ctx); (R06.4) the UUIDv5 namespace of every name is NetworkID(ctx) and statements on keto_uuid_mappings are keyed by such ids only; (R06.5) no keto package other than persistence/sql (and its migrations / test database helpers) executes statements; (R06.6) NetworkID(ctx) asks the contextualizer on every call and keeps no state. " +
+		Explanation: "Decides that every statement that can touch relationships is scoped by the network id of the request: (R06.1) every pop query chain executed on keto_relation_tuples is rooted at queryWithNetwork(ctx), which is Where(\"nid = ?\", NetworkID(ctx)) on its own ctx; (R06.2) every raw statement on keto_relation_tuples has, as a top-level AND-conjunct of its WHERE tree (never under an OR), nid = ? bound to NetworkID(ctx) of the context in scope, and every sub-select on the table correlates nid with the outer row; statements are obtained by symbolically evaluating the builders (Sprintf/Join/Builder/per-case fragments) and parsed, not matched as text; (R06.3) the INSERT's nid column receives the nid parameter and the call site passes NetworkID(ctx); (R06.4) the UUIDv5 namespace of every name is NetworkID(ctx) and statements on keto_uuid_mappings are keyed by such ids only; (R06.5) no keto package other than persistence/sql (and its migrations / test database helpers) executes statements; (R06.7) the objects that serve the requests of every network (engines, handlers, mappers, persister, traverser) have no caching or coalescing field and no container field written after construction; (R06.6) NetworkID(ctx) asks the contextualizer on every call and keeps no state. " +
 			"Not decided: the contextualizer implementations, the database, the one-shot UUID migration (copies every network's rows keeping nid; not reachable from an API entry point).",
 		Assumptions: []string{
 			"pop emits the Where fragments it is given, ANDed together",
@@ -303,6 +303,7 @@ func runC06(c *Ctx) {
 	if r.Count("R06.5") == 0 {
 		r.Discharge("R06.5", "", "who may execute statements", "", "every statement-executing call outside the migrations and test database helpers is in persistence/sql")
 	}
+	singletonState(c, "R06.7")
 }
 
 func exprStr(e ast.Expr) string {
@@ -545,6 +546,23 @@ func rawNetworkScope(c *Ctx, m *SQLModel, ruleWhere, ruleInsert string) {
 			// mapping table statements: R06.4 keyed by ids (INSERT of derived ids)
 			if table == mappingTable && kind == "INSERT" {
 				r.Discharge(ruleInsert, fname, construct, p.Pos(rs.Site), "INSERT into the mapping table; the ids are UUIDv5 of the network (see the UUIDv5 namespace obligation)")
+			} else if table == mappingTable {
+				keyed := false
+				for _, st := range rs.Parsed {
+					if st == nil || st.Where == nil {
+						continue
+					}
+					for _, cj := range st.Where.Conjuncts() {
+						if cj.Op == "atom" && core.BaseColumn(cj.Left) == "id" && (cj.Cmp == "=" || cj.Cmp == "IN") && cj.Right == "?" {
+							keyed = true
+						}
+					}
+				}
+				if keyed {
+					r.Undecide("R06.4", fname, construct, p.Pos(rs.Site), kind+" on the UUID mapping table keyed by ids: cannot show that the ids are derived from the request's network")
+				} else {
+					r.Violate("R06.4", fname, construct, p.Pos(rs.Site), kind+" on the UUID mapping table that is not keyed by ids: the table has no nid column and holds the rows of every network, so a predicate over 'this network's tuples' also matches (and here removes) every other network's rows", sampleSQL(rs)...)
+				}
 			} else {
 				r.Undecide(ruleWhere, fname, construct, p.Pos(rs.Site), "raw statement on an unrecognised table "+table)
 			}
@@ -556,9 +574,9 @@ func rawNetworkScope(c *Ctx, m *SQLModel, ruleWhere, ruleInsert string) {
 				continue
 			}
 			for _, bc := range rs.BuilderCalls {
-				arg := bc.Args[par]
+				arg, argPos := resolveSingleDef(info, bc.Decl, bc.Args[par], bc.Pos)
 				ctxObj, isNID := isNetworkIDCall(info, arg)
-				inScope := innermostCtx(info, bc.Decl, bc.Pos)
+				inScope := innermostCtx(info, bc.Decl, argPos)
 				if !isNID {
 					bad = append(bad, fmt.Sprintf("%s passes %s as the network id of %s (not NetworkID(ctx) of the request)", bc.Fn, exprStr(arg), rs.Builder))
 				} else if ctxObj != nil && inScope != nil && ctxObj != inScope {
@@ -576,5 +594,109 @@ func rawNetworkScope(c *Ctx, m *SQLModel, ruleWhere, ruleInsert string) {
 		} else {
 			r.Discharge(rule, fname, construct, p.Pos(rs.Site), fmt.Sprintf("%s on %s: network scoped in all %d instantiations; bound to NetworkID(ctx) at %d call site(s)", kind, table, len(rs.Samples), len(rs.BuilderCalls)), sampleSQL(rs)...)
 		}
+	}
+}
+
+// ---- R06.7 request-serving singletons keep no cross-request state ---------------------------------
+
+// singletonState: the objects that serve every request of every network (the
+// engines, the mappers, the handlers, the persister and the traverser) have no
+// field that is a coalescing or caching container (sync.Map, singleflight,
+// cache libraries) and no map/slice/channel field that is written outside a
+// constructor. Anything such a field holds is shared by all networks and all
+// concurrent requests and is not keyed by the network id.
+func singletonState(c *Ctx, rule string) {
+	p, r := c.P, c.R
+	singletons := [][2]string{
+		{"internal/check", "Engine"}, {"internal/expand", "Engine"},
+		{"internal/check", "Handler"}, {"internal/expand", "handler"}, {"internal/relationtuple", "handler"},
+		{"internal/relationtuple", "Mapper"}, {"internal/persistence/sql", "Persister"}, {"internal/persistence/sql", "Traverser"},
+	}
+	statefulPkg := func(path string) bool {
+		for _, k := range []string{"singleflight", "cache", "lru", "ristretto", "groupcache", "memoize"} {
+			if strings.Contains(strings.ToLower(path), k) {
+				return true
+			}
+		}
+		return false
+	}
+	n := 0
+	for _, sg := range singletons {
+		t := p.LookupType(core.KetoMod+"/"+sg[0], sg[1])
+		if t == nil {
+			continue
+		}
+		st, ok := t.Underlying().(*types.Struct)
+		if !ok {
+			continue
+		}
+		n++
+		tname := sg[0] + "." + sg[1]
+		var bad []string
+		var mutableFields []*types.Var
+		for i := 0; i < st.NumFields(); i++ {
+			f := st.Field(i)
+			ft := f.Type()
+			if pt, ok := ft.Underlying().(*types.Pointer); ok {
+				ft = pt.Elem()
+			}
+			if nn, ok := ft.(*types.Named); ok && nn.Obj().Pkg() != nil {
+				pth := nn.Obj().Pkg().Path()
+				if (pth == "sync" && (nn.Obj().Name() == "Map" || nn.Obj().Name() == "Pool")) || statefulPkg(pth) {
+					bad = append(bad, fmt.Sprintf("field %s is a %s.%s: whatever it holds is shared by every network and every concurrent request", f.Name(), pth, nn.Obj().Name()))
+					continue
+				}
+			}
+			switch ft.Underlying().(type) {
+			case *types.Map, *types.Chan, *types.Slice:
+				mutableFields = append(mutableFields, f)
+			}
+		}
+		// map/slice/chan fields: no write outside constructors
+		if len(mutableFields) > 0 {
+			for _, fn := range p.KetoFuncs(sg[0]) {
+				top := core.Outermost(fn)
+				if strings.HasPrefix(top.Name(), "New") || top.Name() == "init" {
+					continue
+				}
+				core.Instrs(fn, func(_ *ssa.BasicBlock, _ int, ins ssa.Instruction) {
+					var addr ssa.Value
+					switch x := ins.(type) {
+					case *ssa.Store:
+						addr = x.Addr
+					case *ssa.MapUpdate:
+						addr = x.Map
+					case *ssa.Send:
+						addr = x.Chan
+					default:
+						return
+					}
+					for i := 0; i < 6 && addr != nil; i++ {
+						switch x := addr.(type) {
+						case *ssa.FieldAddr:
+							if fv := fieldVarOf(x); fv != nil {
+								for _, mf := range mutableFields {
+									if fv == mf {
+										bad = append(bad, fmt.Sprintf("field %s is written at %s outside a constructor", mf.Name(), p.Pos(ins.Pos())))
+									}
+								}
+							}
+							addr = x.X
+						case *ssa.UnOp:
+							addr = x.X
+						case *ssa.IndexAddr:
+							addr = x.X
+						default:
+							addr = nil
+						}
+					}
+				})
+			}
+		}
+		r.Check(len(bad) == 0, rule, tname, "cross-request state", "",
+			"no caching/coalescing field and no container field written after construction", strings.Join(dedupe(bad), "; "))
+	}
+	if n < 6 {
+		r.Undecide(rule, "", "request-serving singletons", "", fmt.Sprintf("%d of the engine/handler/mapper/persister types found (floor 6)", n))
 	}
 }
